@@ -1,4 +1,4 @@
-mod ctx; mod model; mod rng; mod util; mod props; mod chartable; mod render; mod gen; mod corpus;
+mod ctx; mod recipe_sexp; mod model; mod rng; mod util; mod props; mod chartable; mod render; mod gen; mod corpus;
 use ctx::{Ctx, Known};
 
 fn load_known(path: &str) -> Vec<Known> {
